@@ -18,11 +18,13 @@ CONFIGS = [
     ('data', R.Params(address_size=8, endian='big', zones=ZONES,
                       data=[{'name': 'blk', 'address': 9, 'value': 0x77, 'size': 2}])),
     ('origin', R.Params(address_size=8, endian='little', zones=ZONES, origin=3)),
+    # a small GLOBAL zone (0..13, no other zone): windows may end beyond the addressable memory
+    ('global-13', R.Params(address_size=8, endian='little', zones=[{'name': 'GLOBAL', 'start': 0, 'end': 13}])),
 ]
 
 
 def isa_of(p):
-    return probe_isa(p.address_size, p.endian, origin=p.origin or None, zones=p.zones, data=p.data or None)
+    return probe_isa(p.address_size, p.endian, origin=p.origin or None, zones=p.zones or None, data=p.data or None)
 
 
 def sigma(i):
@@ -50,8 +52,8 @@ FILLS = [0xFF, 0x1A5, 0]
 def meta(tier):
     q = tier == 'quick'
     return {
-        'rule': 'programs: every history over the 11-symbol line alphabet up to the depth bound under 3 configurations '
-                '(plain / predefined data block / non-zero default origin) that the reference accepts; windows: every start in '
+        'rule': 'programs: every history over the 11-symbol line alphabet up to the depth bound under 4 configurations '
+                '(plain / predefined data block / non-zero default origin / a GLOBAL zone ending at 13, so that windows reach beyond the addressable memory) that the reference accepts; windows: every start in '
                 '[0, top+2] x every end in {absent} U [start-1, top+2] (top = highest emitted address) x fill values; '
                 'non-trivial = a window that cuts through a multi-byte line, or covers a gap / muted byte, or lies beyond the code; '
                 'states = distinct (memory map, muted map) pairs',
